@@ -1,8 +1,11 @@
 #![allow(dead_code)]
 mod astwalk;
+mod compat;
+mod coord;
 mod gram;
 mod lex;
 mod limits;
+mod linecol;
 mod names;
 mod parse;
 mod strs;
@@ -23,6 +26,12 @@ fn main() {
         "parse-child" => parse::child(rest),
         "parse-gen" => parse::gen(rest),
         "limits-replay" => limits::replay(rest),
+        "linecol-replay" => linecol::replay(rest),
+        "linecol-record" => linecol::record(rest),
+        "coord-replay" => coord::replay(rest),
+        "coord-record" => coord::record(rest),
+        "compat-replay" => compat::replay(rest),
+        "compat-record" => compat::record(rest),
         "names-replay" => names::replay(rest),
         "names-record" => names::record(rest),
         "str-replay" => strs::replay(rest),
